@@ -4,6 +4,7 @@ import S2T.Model.AesPatch
 import S2T.Model.TempScope
 import S2T.Model.Cells
 import S2T.Gen.GlobalWrites
+import S2T.Props.C15_Conc
 /-!
 # C15 — Isolation: results independent of history and of concurrent work
 
@@ -19,7 +20,8 @@ Parts:
 * §3 the one-way AES provider patch (`S2T.AesPatch`): results do not depend on it; it is NOT undone
      (open known finding `aes.provider-patch-not-restored`, `_partial` + counterexample);
 * §4 the temporary directory of the 7z generator under every consumer behaviour (`S2T.TempScope`);
-* §5 closed world: every global write found in the current source is one of the cells above.
+* §5 closed world: every global write found in the current source is one of the cells above;
+* §6–§8 (`Props/C15_Conc.lean`) the round-key cache under concurrent use, cache keys, generated key / lock facts.
 -/
 namespace S2T.C15
 open S2T.Patch S2T.Patch.Pc
